@@ -213,7 +213,13 @@ func (vfs *OrefaFS) notFound(absPath string) error {
 // notFoundLocked is notFound for callers that hold the lock of the index.
 func (vfs *OrefaFS) notFoundLocked(absPath string) error {
 	for dirName := absPath; dirName != ""; {
-		dirName, _ = avfs.SplitAbs(vfs, dirName)
+		upper, _ := avfs.SplitAbs(vfs, dirName)
+		if upper == dirName {
+			// nothing exists on the path, not even its root (a volume that does not exist).
+			break
+		}
+
+		dirName = upper
 
 		nd, ok := vfs.nodes[dirName]
 		if ok {
